@@ -965,8 +965,11 @@ cdef class ParticleArray:
                 if prop_name == 'tag':
                     arr = numpy.asarray(data)
                     self.num_real_particles = numpy.sum(arr==Local)
-                else:
+                elif self.default_values['tag'] == Local:
                     self.num_real_particles = n_elem
+                else:
+                    # the new particles have the default tag.
+                    self.num_real_particles = 0
 
                 if self.properties.has_key(prop_name):
                     # just add the particles to the already existing array.
